@@ -139,6 +139,9 @@ func elementToString(formatter string, elem r.Element) (string, error) {
 	return "", zerr.NewErrorSLOT("无效的格式化字符串")
 }
 
+// maxFixedPrecision - the largest N accepted in {#.N}, {#.N%} and {#.NE}
+const maxFixedPrecision = 1074
+
 func parseNumberFormatter(formatter string, value *value.Number) (string, error) {
 	// formatter: [+][.precision][E|%]
 	const (
@@ -198,6 +201,11 @@ func parseNumberFormatter(formatter string, value *value.Number) (string, error)
 				switch state {
 				case sFixedSign:
 					numFixedPrecision = numFixedPrecision*10 + int(ch-'0')
+					// a float64 has at most 1074 decimal places; a larger precision is malformed
+					// (and must not overflow the counter or reach fmt as a bad precision)
+					if numFixedPrecision > maxFixedPrecision {
+						return "", zerr.NewErrorSLOT("无效的格式化字符串")
+					}
 				default:
 					return "", zerr.NewErrorSLOT("无效的格式化字符串")
 				}
